@@ -193,8 +193,18 @@ theorem schedule_independent (cs ls : List Nat) (j : Nat) (gz : Bool) (hl : ls.s
     (t1 : Terminal s1) (t2 : Terminal s2) (hj : j < totalWrites ls gz) : s1.p = s2.p := by
   rw [every_fault_index_fails cs ls j gz hl s1 h1 t1 hj, every_fault_index_fails cs ls j gz hl s2 h2 t2 hj]
 
-/-- non-vacuity: a two-chunk document whose third output write fails; the run below ends in
-    `done false` with the filter exited -/
-example : step (init [5, 3] [4, 4] (some 2) false) .producer 0 ≠ none := by decide
+/-- non-vacuity: a two-chunk document (lines of 4 and 4 bytes) whose third output write fails —
+    the fair schedule reaches, in 40 steps, a state in which `Encode` has returned an error, the
+    filter has exited and exactly the header and the first line were delivered; without a fault
+    the same schedule ends in success with all 8 bytes delivered -/
+example :
+    let s := runFair 40 (init [5, 3] [4, 4] (some 2) false)
+    Reachable (init [5, 3] [4, 4] (some 2) false) s ∧ s.p = .done false ∧ s.c = .exited false ∧ s.delivered = 4 :=
+  ⟨runFair_reachable _ 40 _ Reachable.refl, by decide, by decide, by decide⟩
+
+example :
+    let s := runFair 40 (init [5, 3] [4, 4] none true)
+    s.p = .done true ∧ s.c = .exited true ∧ s.delivered = 8 ∧ s.wcount = totalWrites [4, 4] true := by
+  decide
 
 end TrackVerif.C14
